@@ -4,7 +4,11 @@ CONSTANTS
   MaxOps = 3
   Kinds = {"write", "replace"}
   Fates = {"deliver", "drop", "dup"}
+  Rejects = {"B"}
+  CbOps = "one"
   Recheck = TRUE
+  Post = "forget"
+  Record = "always"
   Export = FALSE
-INVARIANTS TypeOK NoRepeat NoHazard
+INVARIANTS TypeOK NoHazard
 PROPERTIES NeverForEvaluated Converges LoadsFinal
